@@ -1,4 +1,4 @@
-import BumpVerif.Proofs.Live
+import BumpVerif.Proofs.Rewind
 /-! # C08 — byte accounting matches what the arena really holds -/
 namespace Bump.C08
 open Bump Gen
@@ -32,11 +32,11 @@ theorem accounting {E a} (h : ArenaWF E a) :
 /-- **All histories.** After any admissible history (constructors, allocations, failed
 allocations, deallocate/grow/shrink, limit changes, resets, any number of times) both figures
 are exact. -/
-theorem history_accounting {E} (hE : EnvOK E) (ops : List Op) (y : Sys) (inv : LiveInv E y) (hrun : RunOK E ops y) :
+theorem history_accounting {E} (hE : EnvOK E) (ops : List Op) (y : Sys) (inv : LiveInv E y) (hrun : RunOKFull E ops y) :
     allocatedBytesIncludingMetadata (sysRun E ops y).1.st.a E = sumSize (sysRun E ops y).1.st.a.chunks ∧
     (sysRun E ops y).1.st.a.allocatedBytes E + (sysRun E ops y).1.st.a.chunks.length * FOOTER_SIZE
       = sumSize (sysRun E ops y).1.st.a.chunks := by
-  have h := accounting (sysRun_live hE ops y inv hrun).1.wf
+  have h := accounting (sysRun_live_full hE ops y inv hrun).1.wf
   exact ⟨h.1, h.2.1⟩
 
 /-- An allocation that does not acquire a chunk changes neither figure. -/
